@@ -194,6 +194,29 @@ class Tok:
     def __deepcopy__(self, memo):
         return self
 
+    def __eq__(self, o):
+        """comparison with a literal string: a single numeric token equals a decimal literal iff its value does"""
+        if isinstance(o, Tok):
+            return self is o
+        if isinstance(o, str):
+            if len(self.parts) == 1 and isinstance(self.parts[0], NumTok) and o.lstrip("-").isdigit() and str(int(o)) == o:
+                v = self.parts[0].value
+                if isinstance(v, SymFPInt):
+                    return bool(SymBool(z3.fpEQ(v.t, z3.FPVal(float(int(o)), F64))))
+                if isinstance(v, SymInt):
+                    return bool(v == int(o))
+                return str(v) == o
+            if all(isinstance(p, str) for p in self.parts):
+                return "".join(self.parts) == o
+            return False
+        return NotImplemented
+
+    def __ne__(self, o):
+        r = self.__eq__(o)
+        return r if r is NotImplemented else not r
+
+    __hash__ = None
+
 
 def tok_str(x=""):
     """builtin str for the code under test"""
